@@ -195,10 +195,38 @@ pub fn run(tier: Tier) -> i32 {
             }
         }
     }
+    // every output list of <= 3/4 items over {$1..$6, k} (runs of consecutive references, repeated
+    // and descending references, references past the end) on feature lists of 0-4 columns
+    {
+        let items = ["$1", "$2", "$3", "$4", "$5", "$6", "k"];
+        let max_out = tier.pick(3, 4);
+        for olen in 1..=max_out {
+            for code in 0..items.len().pow(olen as u32) {
+                let out: Vec<String> = (0..olen).map(|p| items[(code / items.len().pow(p as u32)) % items.len()].to_string()).collect();
+                for ncols in 0..=4usize {
+                    let feats: Vec<String> = (1..=ncols).map(|i| format!("f{i}")).collect();
+                    let pat: Vec<String> = if ncols == 0 { vec![] } else { vec!["*".to_string()] };
+                    let rules = vec![(pat, out.clone())];
+                    st.states += 1;
+                    st.transitions += 1;
+                    st.count("output_list_cases");
+                    let want = reference(&rules, &feats);
+                    match guard(|| rewrite(&rules, &feats)) {
+                        Ok(g) if g == want => {}
+                        other => st.violation(Finding {
+                            class: "rule-output-semantics".into(),
+                            what: format!("rule output {:?} on {ncols} features: got {:?}, expected {:?}", out, other, want),
+                            replay: json!({"kind": "rewrite", "rules": [format!("{} {}", rules[0].0.join(","), out.join(","))], "features": feats}),
+                        }),
+                    }
+                }
+            }
+        }
+    }
     // dictionary level: the trainer applies each section's rewriter and falls back to the
     // ORIGINAL features when that section has no matching rule
     crate::props::train::dict_level_c17(tier, &mut st);
-    rep.rule = "state = (ordered rule list of <= 3/4 rules whose patterns have 1-2 (thorough also 1-3) columns over {*, a, b, (a|b)} and whose output names the rule and references $1,$2,$3; feature list of length 0-3 over {a,b,c}); the real rewriter (rule-list hook and rewrite.def text with all section assignments of two rules) must return what the first rule in list order that matches position-wise as a prefix returns, or nothing; plus, for really trained models whose rewrite.def has sections with and without catch-all rules, the connection classes and bigram.left/right tuples must be those of the reference rewrite (else: features unchanged) followed by the reference expansion; distinct = distinct outputs".into();
+    rep.rule = "state = (ordered rule list of <= 3/4 rules whose patterns have 1-2 (thorough also 1-3) columns over {*, a, b, (a|b)} and whose output names the rule and references $1,$2,$3; feature list of length 0-3 over {a,b,c}); the real rewriter (rule-list hook and rewrite.def text with all section assignments of two rules) must return what the first rule in list order that matches position-wise as a prefix returns, or nothing; every output list of <= 3/4 items over {$1..$6, k} on lists of 0-4 columns, and $1..$25 on long lists; plus, for really trained models whose rewrite.def has sections with and without catch-all rules, the connection classes and bigram.left/right tuples must be those of the reference rewrite (else: features unchanged) followed by the reference expansion; distinct = distinct outputs".into();
     rep.bounds = json!({"max_rules": tier.pick(3, 4), "pattern_columns": tier.pick("1-2", "1-2 (4 rules), 1-3 (3 rules)"), "feature_len": "0-3"});
     rep.assumptions = vec!["a pattern longer than the feature list does not match (the statement is silent; the code agrees)".into()];
     rep.finish(
@@ -209,6 +237,7 @@ pub fn run(tier: Tier) -> i32 {
             "cases_where_a_later_rule_shares_a_prefix_with_a_non_adjacent_earlier_rule",
             "rewrite_def_text_cases",
             "two_digit_reference_cases",
+            "output_list_cases",
             "trained_models_with_rewrite_rules",
             "rows_checked_for_connection_classes",
         ],
